@@ -363,6 +363,14 @@ func runC04(c *config) {
 		b, _ := os.ReadFile(f)
 		c04Check(c, string(b), "corpus", false)
 	}
+	// references by number: module shapes with named and unnamed globals, aliases, ifuncs and functions,
+	// definitions of other namespaces (attribute groups, metadata, types, comdats) in between, and a use @N
+	// of every unnamed global variable: it must be bound to the N-th unnamed definition (oracle
+	// unnamed_global_binding, shared with C08)
+	rb := newRng(c.seed, "c04-binding")
+	for i := 0; i < 300*c.scale; i++ {
+		c08Module(c, rb, false)
+	}
 	// hand-written patterns of the quantifier: recursive types, type aliases, blockaddress across functions
 	for _, src := range []string{
 		"%a = type { %b* }\n%b = type { %a*, %b* }\n@g = external global %a\n",
@@ -673,7 +681,20 @@ func runC12(c *config) {
 		// every entry point
 		var viaBytes, viaReader, viaFile string
 		guard(func() error {
-			m, err := asm.ParseBytes("x.ll", []byte(src))
+			// the caller's buffer is the caller's: it is reused (overwritten with another input, then cleared)
+			// between the parse and the print, as a read loop over many files would do
+			buf := []byte(src)
+			m, err := asm.ParseBytes("x.ll", buf)
+			other := inputs[(idx+1)%len(inputs)]
+			for k := range buf {
+				buf[k] = other[k%len(other)]
+			}
+			if m2, err2 := asm.ParseBytes("y.ll", buf); err2 == nil {
+				_ = m2.String()
+			}
+			for k := range buf {
+				buf[k] = 0
+			}
 			viaBytes = entryDigest(m, err)
 			m, err = asm.Parse("x.ll", strings.NewReader(src))
 			viaReader = entryDigest(m, err)
